@@ -184,7 +184,14 @@ Section Clauses.
 
   Definition staged_ok (t : task) (di : dinfo) : bool :=
     if good fs0 m t di then
-      match src_content fs0 t di with Some z => has_file tree (di_eff di) z | None => true end
+      match src_content fs0 t di with
+      | Some z => has_file tree (di_eff di) z
+                  && (* a move leaves nothing behind *)
+                     (if action_eqb (di_act di) Move
+                      then match di_src di with Some (s, _) => negb (exists_at s tree) | None => true end
+                      else true)
+      | None => true
+      end
     else true.
 
   (* clause 1: after input staging every (independent, feasible) input
